@@ -134,7 +134,7 @@ fn budget(g: Group, n: usize, thorough: bool) -> usize {
     let q = match (g, n) {
         (_, 5) => 600,
         (Group::Npn, 6) => 200,
-        (Group::Npn, 7) => 32,
+        (Group::Npn, 7) => 64,
         (Group::Npn, 8) => 8,
         (Group::P, 6) => 600,
         (Group::P, 7) => 300,
